@@ -103,7 +103,15 @@ func ServerTable() []ServerEntry {
 		}},
 		{"publicationpb.ModelServer", viaRegister(func() registerer { return publicationpb.NewModelServer(publicationpb.NewModel()) })},
 		{"speakerpb.MemoryDevice", viaRegister(func() registerer { return speakerpb.NewMemoryDevice(&types.AudioLevel{Gain: 10}) })},
-		{"vendingpb.ModelServer", viaRegister(func() registerer { return vendingpb.NewModelServer(vendingpb.NewModel()) })},
+		{"vendingpb.ModelServer", viaRegister(func() registerer {
+			// something to dispense from the start: a consumable with a stock record in litres
+			m := vendingpb.NewModel()
+			_, _ = m.CreateConsumable(&traits.Consumable{Name: "water", Title: "Water"})
+			_, _ = m.CreateStock(&traits.Consumable_Stock{Consumable: "water",
+				Used:      &traits.Consumable_Quantity{Amount: 1, Unit: traits.Consumable_LITER},
+				Remaining: &traits.Consumable_Quantity{Amount: 50, Unit: traits.Consumable_LITER}})
+			return vendingpb.NewModelServer(m)
+		})},
 		{"wastepb.ModelServer", func() []Svc { return []Svc{{&traits.WasteApi_ServiceDesc, wastepb.NewModelServer(wastepb.NewModel())}} }},
 	}
 }
